@@ -78,6 +78,12 @@ def scenarios(ctx, n):
                 ops.append("S" + piece.hex())
         # re-offer / continue the request stream after the response (the driver cannot react to DATA_OTHER inside a static
         # case, so the unconsumed rest is re-offered in full: with glue the CONNECT head was consumed and `follow` was not)
+        if kind == "bytes" and 200 <= status <= 299 and glue and rng.random() < 0.5:
+            # the server speaks first inside the tunnel (e.g. an SMTP greeting) while the client's bytes are still waiting to be re-offered:
+            # the response direction is fed twice more before the request direction runs again. (Only with client bytes waiting: when the
+            # client has sent nothing yet, the unchanged library parses the server's first tunnel bytes as a new response -- listed finding)
+            for sb in (b"220-greeting one\r\n", b"220 ready\r\n"):
+                ops.append("S" + sb.hex())
         rest = follow
         if rest:
             for piece in sconnp.cut(rest, sconnp.split_points(rest, rng, rng.choice(["whole", "random"]))):
@@ -127,6 +133,11 @@ def check(ctx):
     wv = sconnp.run_oracles(ctx, [wcase], wout) if wout else [None]
     if "http09-then-tunnel-error" in kf and wv and wv[0] is not None and not wv[0].get("C16", True):
         ctx.known.append("id=http09-then-tunnel-error witness still exhibits it (+%d generated histories): %s" % (len(known_hits), kf["http09-then-tunnel-error"]["what"][:200]))
+    # second listed finding: after an accepted CONNECT whose head came alone, tunnel bytes of the SERVER that arrive before any client byte are parsed as a response
+    sw = sconnp.case(["O", "Q" + b"CONNECT h:25 HTTP/1.1\r\nHost: h:25\r\n\r\n".hex(), "S" + b"HTTP/1.1 200 OK\r\n\r\n".hex(), "S" + b"220 ready\r\n".hex()])
+    swo, _ = sconnp.run_impl(ctx, [sw], tag="known2")
+    if "server-first-tunnel-data-parsed-as-response" in kf and swo and len(sconnp.tx_dumps(swo[0])) > 1:
+        ctx.known.append("id=server-first-tunnel-data-parsed-as-response witness still exhibits it: %s" % kf["server-first-tunnel-data-parsed-as-response"]["what"][:200])
     failing = [i for i in failing if i not in known_hits]
     for i in failing[:2]:
         c = cp.shrink_ops_case(ctx, cases[i], cp.oracle_fails(ctx, "C16"))
